@@ -105,6 +105,7 @@ fn main() {
     // the two real string scanners of read.rs called directly (docs/READERS-NOTES.md): one line per property
     if prop == "C09" { readers::run(&mut sink, thorough, seed); }
     if prop == "C05" { readers::run(&mut sink, thorough, seed); }
+    if prop == "C05" { c05::run_bytesctl(&mut sink, thorough, seed); }
     sink.finish(stats);
 }
 
@@ -127,6 +128,7 @@ fn replay(sink: &mut common::Sink, toks: &[&str]) {
         #[cfg(feature = "rv")]
         "rawfld" | "rawconv" => c19b::replay(sink, toks),
         "esc" | "escbufs" | "hex4" | "hex4s" | "scan" => c05::replay(sink, toks),
+        "bytesctl" => c05::replay(sink, toks),
         "serc" | "serp" | "serbufs" | "serbufx" | "disp" => c03::replay(sink, toks),
         "dispf" | "dispn" => c03::replay(sink, toks),
         "maphist" | "mapeqh" | "mapeq" | "maphash" | "mapsort" => c17::replay(sink, toks),
